@@ -1020,7 +1020,9 @@ mod c18 {
         match mode {
             "raw" => Box::new(Raw { g: None, max: Default::default(), mean: Default::default(), init_ctor }),
             "asset" => Box::new(AssetSut { g: None, init_ctor, folded: false, bal: None, pending_reset: false }),
-            "instr" => Box::new(InstrSut { g: TearSheetGenerator::init(time_ms(0)), prev: Decimal::ZERO, folded: false }),
+            // (every other curve: a session start LATER than every point of the curve - a state seeded with the
+            //  wall clock while recorded history is replayed; the points keep their own exit times)
+            "instr" => Box::new(InstrSut { g: TearSheetGenerator::init(if init_ctor { time_ms(4_000_000_000_000) } else { time_ms(0) }), prev: Decimal::ZERO, folded: false }),
             m => usage(&format!("unknown mode {m}")),
         }
     }
@@ -1320,8 +1322,18 @@ mod c16 {
 
     fn instruments() -> IndexedInstruments {
         let mut b = IndexedInstruments::builder();
-        for (_, ex, name, base, quote) in INSTR.iter().rev() {
-            b = b.add_instrument(Instrument::spot(*ex, *name, format!("{base}{quote}").to_uppercase(), Underlying::new(*base, *quote), None));
+        // i0 and i2 are spot markets; i1 and i3 are perpetual contracts with contract sizes 0.01 and 10 (settled in their
+        // quote asset, so the asset table is the same): fills, closed positions and hence the tear sheets are stated in
+        // the units the venue reports and do not depend on the contract size
+        for (k, (_, ex, name, base, quote)) in INSTR.iter().enumerate().rev() {
+            let market = format!("{base}{quote}").to_uppercase();
+            b = b.add_instrument(if k % 2 == 0 {
+                Instrument::spot(*ex, *name, market, Underlying::new(*base, *quote), None)
+            } else {
+                Instrument::new(*ex, *name, market, Underlying::new(*base, *quote), barter_instrument::instrument::quote::InstrumentQuoteAsset::UnderlyingQuote,
+                    barter_instrument::instrument::kind::InstrumentKind::Perpetual(barter_instrument::instrument::kind::perpetual::PerpetualContract { contract_size: if k == 1 { Decimal::new(1, 2) } else { Decimal::from(10) }, settlement_asset: barter_instrument::asset::Asset::from(*quote) }),
+                    None)
+            });
         }
         b.build()
     }
